@@ -85,22 +85,76 @@ func cmdList(args []string) {
 
 // jobs for a contract: one per configuration value
 type job struct {
-	fn  *ssa.Function
-	c   *Contract
-	cfg int
-	has bool
+	fn    *ssa.Function
+	c     *Contract
+	cfg   int
+	has   bool
+	extra []int // values of the split variables, in order
 }
+
+// intEval: evaluate an integer expression over configuration / split variables only.
+func intEval(e *CExpr, env map[string]int) int {
+	switch e.Op {
+	case "int":
+		return int(e.Int)
+	case "ident":
+		return env[e.Name]
+	case "neg":
+		return -intEval(e.Args[0], env)
+	case "+":
+		return intEval(e.Args[0], env) + intEval(e.Args[1], env)
+	case "-":
+		return intEval(e.Args[0], env) - intEval(e.Args[1], env)
+	case "*":
+		return intEval(e.Args[0], env) * intEval(e.Args[1], env)
+	}
+	panic(fmt.Sprintf("split bound %s is not an integer expression over configuration variables", e))
+}
+
+func expandSplits(j job) []job {
+	c := j.c
+	if len(c.Splits) == 0 {
+		return []job{j}
+	}
+	out := []job{j}
+	for si, sp := range c.Splits {
+		var next []job
+		for _, b := range out {
+			env := map[string]int{}
+			if c.Config != nil {
+				env[c.Config.Var] = b.cfg
+			}
+			for k := 0; k < si; k++ {
+				env[c.Splits[k].Var] = b.extra[k]
+			}
+			lo, hi := intEval(sp.Lo, env), intEval(sp.Hi, env)
+			for v := lo; v <= hi; v++ {
+				nb := b
+				nb.extra = append(append([]int{}, b.extra...), v)
+				next = append(next, nb)
+			}
+		}
+		out = next
+	}
+	return out
+}
+
+var quickTier bool
 
 func jobsFor(fn *ssa.Function, c *Contract, only int) []job {
 	if c.Config == nil {
-		return []job{{fn, c, 0, false}}
+		return expandSplits(job{fn: fn, c: c})
 	}
 	var js []job
-	for m := c.Config.Lo; m <= c.Config.Hi; m++ {
+	lo, hi := c.Config.Lo, c.Config.Hi
+	if quickTier {
+		lo, hi = c.Config.QLo, c.Config.QHi
+	}
+	for m := lo; m <= hi; m++ {
 		if only >= 0 && m != only {
 			continue
 		}
-		js = append(js, job{fn, c, m, true})
+		js = append(js, expandSplits(job{fn: fn, c: c, cfg: m, has: true})...)
 	}
 	return js
 }
@@ -139,7 +193,7 @@ func cmdVerify(args []string) {
 		c := P.contracts[fn]
 		for _, j := range jobsFor(fn, c, *only) {
 			t0 := time.Now()
-			res := P.verifyFunc(j.fn, j.c, j.cfg, j.has)
+			res := P.verifyFunc(j.fn, j.c, j.cfg, j.has, j.extra...)
 			gen := time.Since(t0).Seconds()
 			for _, o := range res.Obls {
 				o.SMT = EmitSMT(o.Hyps, o.Goal, "", o.Cover, o.Watch)
@@ -149,7 +203,7 @@ func cmdVerify(args []string) {
 			}
 			nOK, nBad := 0, 0
 			for _, o := range res.Obls {
-				ok := (o.Cover && o.Status == "sat") || (!o.Cover && o.Status == "unsat")
+				ok := (o.Cover && o.Status != "unsat") || (!o.Cover && o.Status == "unsat")
 				if ok {
 					nOK++
 				} else {
